@@ -9,6 +9,7 @@ From FDO Require Kex.Valid.
 From FDO Require Fdo.Handover.
 From FDO Require Fsim.Transfer.
 From FDO Require Svi.Devmod Svi.Modules.
+From FDO Require Fdo.Owner.
 Local Open Scope N_scope.
 
 Definition unhexnum (b : bytes) : option N :=
@@ -705,6 +706,51 @@ Section Dispatch.
       end
     else None.
 
+  (* ---- the three proofs a responder checks, over the bytes received:
+          own.provedevice kk kn kid guid nonce ref body | rv.provetorv ((guid kk kn kid) ...) nonce body | rv.ownersign nonce ref body
+          [ref] names the live session for the two questions the model does not answer itself: whether the key exchange
+          accepts xB ("xbok") and whether the deployment's policy accepts the requested wait ("ttlok") ---- *)
+  Definition O_flag (q : bytes) (ref : bytes) (rest : bytes) : bool :=
+    bytes_eqb (oracle (q ++ sp ++ s "b:"%bs ++ hex ref ++ sp ++ rest)) (s "1"%bs).
+  Fixpoint regs_of_args (l : list arg) : option (list (bytes * pubkey)) :=
+    match l with
+    | [] => Some []
+    | AL [AB g; kk; kn; kid] :: r =>
+      match parse_key kk kn kid, regs_of_args r with Some k, Some xs => Some ((g, k) :: xs) | _, _ => None end
+    | _ => None
+    end.
+  Fixpoint reg_lookup (l : list (bytes * pubkey)) (g : bytes) : option pubkey :=
+    match l with [] => None | (g', k) :: r => if bytes_eqb g g' then Some k else reg_lookup r g end.
+  Definition render_acc (b : bool) : bytes := if b then s "accept"%bs else s "reject"%bs.
+  Definition run_owner (kind : bytes) (args : list arg) : option bytes :=
+    if bytes_eqb kind (s "own.provedevice"%bs) then
+      match args with
+      | [kk; kn; kid; AB guid; AB nonce; AB ref; AB body] =>
+        match parse_key kk kn kid with
+        | Some key => Some (render_acc (Owner.prove_device_ok O_der O_rfc3339 O_verify key guid nonce
+                                          (fun xb => O_flag (s "xbok"%bs) ref (s "b:"%bs ++ hex xb)) body))
+        | None => Some bad_args
+        end
+      | _ => Some bad_args
+      end
+    else if bytes_eqb kind (s "rv.provetorv"%bs) then
+      match args with
+      | [AL regs; AB nonce; AB body] =>
+        match regs_of_args regs with
+        | Some rs => Some (render_acc (Owner.prove_to_rv_ok O_der O_rfc3339 O_verify (reg_lookup rs) nonce body))
+        | None => Some bad_args
+        end
+      | _ => Some bad_args
+      end
+    else if bytes_eqb kind (s "rv.ownersign"%bs) then
+      match args with
+      | [AB nonce; AB ref; AB body] =>
+        Some (render_acc (Owner.owner_sign_ok O_der O_rfc3339 O_verify O_hash O_pubkey nonce
+                            (fun w => O_flag (s "ttlok"%bs) ref (s "z:"%bs ++ hexnumZ w)) body))
+      | _ => Some bad_args
+      end
+    else None.
+
   Definition dispatch (kind : bytes) (args : list arg) : bytes :=
     match run_cbor kind args with
     | Some r => r
@@ -738,7 +784,7 @@ Section Dispatch.
                                                                   | Some r => r
                                                                   | None => match run_fsim kind args with
                                                                             | Some r => r
-                                                                            | None => match run_devmod kind args with Some r => r | None => s "unknown-kind"%bs end
+                                                                            | None => match run_devmod kind args with Some r => r | None => match run_owner kind args with Some r => r | None => s "unknown-kind"%bs end end
                                                                             end
                                                                   end
                                                         end
